@@ -70,6 +70,8 @@ class C20(Prop):
             yield self.gen_sort(rng)
         for _ in range(40 if tier == "quick" else 400):
             yield self.gen_merged(rng)
+        for _ in range(40 if tier == "quick" else 400):
+            yield self.gen_remapped(rng)
         for _ in range(60 if tier == "quick" else 800):
             # the same scaffold objects are sorted, renamed in place (as the chromosome namer does), sorted again
             c = self.gen_sort(rng)
@@ -195,7 +197,30 @@ class C20(Prop):
             res["byname_err"] = type(e).__name__
         return res
 
+    def gen_remapped(self, rng):
+        """the assemblies as the remapper hands them to the sort: scaffolds painted and not, with and without a
+        chromosome-name tag (also on a scaffold that was not painted), haplotigs, left-overs"""
+        from .. import pipeline_util as P
+
+        n = rng.randint(3, 6)
+        scs = [{"name": f"scaffold_{k + 1}", "rows": [["F", f"scaffold_{k + 1}", 1, rng.randint(50, 900), 1, []]]} for k in range(n)]
+        ptx = []
+        names = ["X", "W", "Z1", "B2"]
+        rng.shuffle(names)
+        for k in range(n - 1):
+            tags = rng.choice([[], ["Painted"], ["Painted"], ["Painted", names[k % 4]], [names[k % 4]], ["Haplotig"]])
+            ptx.append({"name": f"Scaffold_{k + 1}", "rows": [["F", scs[k]["name"], 1, P.sc_len(scs[k]), rng.choice([1, -1]), list(tags)]]})
+        return {"gen": "remapped", "kind": "remapped", "input": {"scaffolds": scs},
+                "pretext": {"bpt": "1.000000", "scaffolds": ptx}, "prefix": "SUPER_", "plan": False}
+
     def run_impl(self, case):
+        if case["kind"] == "remapped":
+            from .. import pipeline_util as P
+
+            o = P.run_pipeline(case)
+            if "err" in o:
+                return o
+            return {"asms": [[a["key"], [[s_["rank"], s_["name"]] for s_ in a["scaffolds"]]] for a in o["asms"]]}
         if case["kind"] == "merged":
             return self.merged_impl(case)
         if case["kind"] == "keys":
@@ -210,8 +235,8 @@ class C20(Prop):
         def kterm(k, names):
             return listlit(k, lambda e: f"KS {names(e)}" if isinstance(e, str) else f"KI {zlit(e)}")
 
-        if case["kind"] == "merged":
-            return []        # oracle only (the model of name_assemblies is compared in C09 / C10)
+        if case["kind"] in ("merged", "remapped"):
+            return []        # oracle only (the model of the pipeline / name_assemblies is compared in C09 / C10)
         if case["kind"] == "keys":
             def t(names):
                 return "CKeys " + listlit(
@@ -230,6 +255,16 @@ class C20(Prop):
         return t
 
     def oracle(self, case, obs):
+        if case["kind"] == "remapped":
+            if "err" in obs:
+                return f"sorting the remapped assemblies failed: {obs['err']}: {obs.get('msg', '')[:120]}"
+            for k, v in obs["asms"]:
+                if any(r is None for r, _ in v):
+                    return f"assembly {k}: a scaffold without a rank reached the sort"
+                ks = [(r, oracle_key(n)) for r, n in v]
+                if ks != sorted(ks):
+                    return f"assembly {k}: not in rank-then-name order: {v}"
+            return None
         if case["kind"] == "merged":
             if "err" in obs:
                 return f"name_assemblies raised {obs['err']}"
@@ -296,6 +331,8 @@ class C20(Prop):
         return super().key({k: v for k, v in case.items() if k not in ("perm",)}, obs)
 
     def shrink_candidates(self, case):
+        if case["kind"] == "remapped":
+            return
         if case["kind"] == "keys":
             if len(case["names"]) > 1:
                 for n in case["names"]:
